@@ -1,2 +1,231 @@
-(* C05 -- placeholder while the proofs are being written *)
-From LK Require Import Lib.SplitLib Model.C05_split.
+(* C05 -- Every train/test split is an exact, leak-free partition with the exact hold-out.
+   Property theorems only; each is closed by `exact <lemma>` and followed by Print Assumptions.
+   The per-user hold-out bodies are the GENERATED ones (Gen/C05_holdout.v, from splitting/holdout.py):
+   holdout_exact, holdout_selects_rows, user_pairs and crossfold_users_once are re-checked against
+   the source on every run.  All theorems are about lists of any length, any number of users, folds,
+   cut-offs; random draws, argsort results and the rounding function are universally quantified
+   (constrained only by the library contracts, which boolean checkers -- library_checkers -- test on
+   every observed run).
+
+   Property text -> theorem
+   * "each train/test pair is an exact partition of the original interactions: no (user, item) pair
+     occurs in both parts and every original record, with its attributes unchanged, occurs in exactly
+     one of them (the training part being empty only when test-only output is requested)"
+        -> pair_is_partition_records (every branch of sample_records, incl. the cross-fold fallback),
+           crossfold_records_once (per fold), user_pairs (every pair of crossfold_users / sample_users,
+           through user_splitters_are_sections), temporal_cut (pair without an upper bound)
+   * "the data-frame views of the pair list exactly those records"        -> frames_list_records
+   * "Cross-fold splitting puts every record / every user on the test side of exactly one fold"
+        -> crossfold_records_once, crossfold_users_once (with numpy.array_split's fold sizes)
+   * "user-based splitting holds out exactly the specified number, or rounded fraction, of each test
+     user's rows - the most recent ones for time-ordered rules"
+        -> holdout_exact (+ rounded_fraction: round-half-even is a nearest integer), user_pairs (the
+           test list of test user i is exactly the rows the rule selects from that user's row)
+   * "and leaves all rows of other users in training"                     -> user_pairs (third clause of eff = false)
+   * "temporal splitting places every record strictly before the cut in training and every record in
+     [cut, next cut or end) in test"                                      -> temporal_cut, filter_window_exact
+   * "for cut-offs given as UNIX seconds or in the same representation as the stored times - every
+     local time-zone setting"                                             -> temporal_zone_free
+   Records are (user, item, attribute, time) tuples carried whole, so "attributes unchanged" is part
+   of Permutation.  Hypothesis NoDup (map pair_of recs): the interaction class has no repeated
+   (user, item) pair.  Not theorems (correspondence only): that pandas' quantile is the cut of
+   split_temporal_fraction; the Arrow anti-join / mask kernels themselves. *)
+From Coq Require Import ZArith QArith List Bool Permutation Lia.
+From LK Require Import Lib.SplitLib Lib.PyRoundZ Gen.C05_holdout Model.C05_split
+     Proofs.C05_records Proofs.C05_holdout Proofs.C05_users Proofs.C05_temporal Proofs.C05_main.
+Import ListNotations.
+
+(* ---- record-based ---------------------------------------------------------------------------------------- *)
+Theorem pair_is_partition_records :
+  forall recs size repeats (disjoint test_only : bool) draws fs,
+  NoDup (map pair_of recs) ->
+  sample_records recs size repeats disjoint test_only draws = Folds fs ->
+  forall f, In f fs ->
+    (forall r, In r (test_recs f) -> In r recs) /\
+    (Permutation (f_train f ++ test_recs f) recs \/ (test_only = true /\ f_train f = [])) /\
+    (forall r1 r2, In r1 (f_train f) -> In r2 (test_recs f) -> pair_of r1 <> pair_of r2).
+Proof. exact pair_is_partition_records_l. Qed.
+Print Assumptions pair_is_partition_records.
+
+Theorem crossfold_records_once :
+  forall recs perm k (test_only : bool),
+  NoDup (map pair_of recs) -> Permutation perm (seq 0 (length recs)) -> (0 < k)%Z ->
+  exists folds, crossfold_records recs k test_only perm = Folds folds /\
+    length folds = Z.to_nat k /\
+    Permutation (concat (map test_recs folds)) recs /\
+    (forall j, (j < Z.to_nat k)%nat ->
+       length (test_recs (nth j folds (mkFold [] []))) =
+       (length recs / Z.to_nat k + (if Nat.ltb j (length recs mod Z.to_nat k) then 1 else 0))%nat) /\
+    (forall f, In f folds ->
+       (test_only = false -> Permutation (f_train f ++ test_recs f) recs) /\
+       (test_only = true -> f_train f = []) /\
+       (forall r, In r (test_recs f) -> In r recs) /\
+       (forall r1 r2, In r1 (f_train f) -> In r2 (test_recs f) -> pair_of r1 <> pair_of r2)).
+Proof. exact crossfold_records_once_main. Qed.
+Print Assumptions crossfold_records_once.
+
+Theorem sample_records_size :
+  forall recs size draws (test_only disjoint : bool),
+  valid_idx (length recs) (nth 0 draws []) -> Z.of_nat (length (nth 0 draws [])) = size ->
+  exists f, sample_records recs size None disjoint test_only draws = Folds [f] /\ Z.of_nat (length (test_recs f)) = size.
+Proof. exact sample_records_single_size. Qed.
+Print Assumptions sample_records_size.
+
+(* ---- hold-out rules (generated bodies) ------------------------------------------------------------------------ *)
+Theorem holdout_exact :
+  forall (F : Type) (rm : Z -> F -> option Z) (h : holdout F) row d, hdraw_ok rm h row d ->
+  let len := Z.of_nat (length row) in
+  match h with
+  | HSampleN n => (0 <= n)%Z -> exists idx, run_holdout rm h row d = HOk idx /\ exact_count len n idx
+  | HSampleFrac f => forall n, rm len f = Some n -> (0 <= n <= len)%Z ->
+      exists idx, run_holdout rm h row d = HOk idx /\ exact_count len n idx
+  | HLastN n fld => (0 <= n)%Z -> forall c, col_of fld row = Some c ->
+      exists idx, run_holdout rm h row d = HOk idx /\ exact_count len n idx /\ most_recent c idx
+  | HLastFrac f fld => forall n c, rm len f = Some n -> (0 <= n)%Z -> col_of fld row = Some c ->
+      exists idx, run_holdout rm h row d = HOk idx /\ exact_count len n idx /\ most_recent c idx
+  end.
+Proof. exact (@run_holdout_exact_l). Qed.
+Print Assumptions holdout_exact.
+
+Theorem holdout_selects_rows :
+  forall (F : Type) (rm : Z -> F -> option Z) (h : holdout F) row d idx,
+  hdraw_ok rm h row d -> run_holdout rm h row d = HOk idx -> valid_idx (length row) idx.
+Proof. exact (@run_holdout_valid). Qed.
+Print Assumptions holdout_selects_rows.
+
+Theorem rounded_fraction :
+  forall m e, (e < 0 -> 2 * Z.abs (round_half_even m e * 2 ^ (- e) - m) <= 2 ^ (- e))%Z /\
+              (0 <= e -> round_half_even m e = m * 2 ^ e)%Z.
+Proof. exact rounded_fraction_l. Qed.
+Print Assumptions rounded_fraction.
+
+(* ---- user-based ------------------------------------------------------------------------------------------------- *)
+Theorem user_splitters_are_sections :
+  forall (F : Type) (rm : Z -> F -> option Z) recs users h (test_only : bool) hds fs,
+  (forall k perm, crossfold_users rm recs users k h test_only perm hds = Folds fs ->
+     (0 < k)%Z /\ split_sections rm recs users h test_only (array_split perm (Z.to_nat k)) hds = Folds fs /\
+     (Permutation perm (seq 0 (length users)) -> forall s, In s (array_split perm (Z.to_nat k)) -> valid_idx (length users) s)) /\
+  (forall size repeats (disjoint : bool) draws,
+     sample_users rm recs users size repeats disjoint test_only h draws hds = Folds fs ->
+     exists secs eff, (eff = test_only \/ eff = false) /\
+       split_sections rm recs users h eff secs hds = Folds fs /\
+       ((disjoint = true -> repeats <> None -> Permutation (nth 0 draws []) (seq 0 (length users))) ->
+        ((disjoint = false \/ repeats = None) -> forall i, valid_idx (length users) (nth i draws [])) ->
+        forall s, In s secs -> valid_idx (length users) s)).
+Proof. exact (@user_splitters_are_sections_l). Qed.
+Print Assumptions user_splitters_are_sections.
+
+Theorem user_pairs :
+  forall (F : Type) (rm : Z -> F -> option Z) recs users h (eff : bool) secs hds fs,
+  NoDup (map pair_of recs) -> NoDup users -> (forall s, In s secs -> valid_idx (length users) s) ->
+  sections_draws_ok rm recs users h secs hds ->
+  split_sections rm recs users h eff secs hds = Folds fs ->
+  length fs = length secs /\
+  forall j, (j < length secs)%nat ->
+    let f := nth j fs dfold in
+    let us := gather 0%Z users (nth j secs []) in
+    test_keys f = us /\ NoDup us /\
+    (forall i, (i < length us)%nat ->
+       exists idx, run_holdout rm h (user_row recs (nth i us 0%Z)) (nth i (nth j hds []) no_draw) = HOk idx /\
+                   nth i (f_test f) (0%Z, []) = (nth i us 0%Z, gather dflt (user_row recs (nth i us 0%Z)) idx)) /\
+    (forall r, In r (test_recs f) -> In r recs /\ In (ru r) us) /\
+    (eff = true -> f_train f = []) /\
+    (eff = false ->
+       Permutation (f_train f ++ test_recs f) recs /\
+       (forall r, In r recs -> ~ In (ru r) us -> In r (f_train f)) /\
+       (forall r1 r2, In r1 (f_train f) -> In r2 (test_recs f) -> pair_of r1 <> pair_of r2)).
+Proof. exact (@split_sections_pairs_l). Qed.
+Print Assumptions user_pairs.
+
+Theorem crossfold_users_once :
+  forall (F : Type) (rm : Z -> F -> option Z) recs users k h (test_only : bool) perm hds folds,
+  Permutation perm (seq 0 (length users)) -> (0 < k)%Z ->
+  sections_draws_ok rm recs users h (array_split perm (Z.to_nat k)) hds ->
+  crossfold_users rm recs users k h test_only perm hds = Folds folds ->
+  length folds = Z.to_nat k /\
+  Permutation (concat (map test_keys folds)) users /\
+  (forall j, (j < Z.to_nat k)%nat ->
+     length (test_keys (nth j folds dfold)) =
+     (length users / Z.to_nat k + (if Nat.ltb j (length users mod Z.to_nat k) then 1 else 0))%nat).
+Proof. exact (@crossfold_users_once_l). Qed.
+Print Assumptions crossfold_users_once.
+
+(* ---- temporal ------------------------------------------------------------------------------------------------------ *)
+Theorem temporal_cut :
+  forall c off recs cuts endt fs j x,
+  split_global_time c off recs cuts endt = Folds fs -> nth_error cuts j = Some x ->
+  let t := conv c off x in
+  let t2 := next_cut (map (conv c off) cuts) (option_map (conv c off) endt) j in
+  length fs = length cuts /\
+  exists f, nth_error fs j = Some f /\
+    f_train f = filter (fun r => Qlt_b (tq r) t) recs /\
+    Permutation (test_recs f) (filter (fun r => Qle_b t (tq r) && match t2 with None => true | Some e => Qlt_b (tq r) e end) recs) /\
+    (forall r, In r (f_train f) <-> In r recs /\ (tq r < t)%Q) /\
+    (forall r, In r (test_recs f) <-> In r recs /\ (t <= tq r)%Q /\ match t2 with None => True | Some e => (tq r < e)%Q end) /\
+    (t2 = None -> Permutation (f_train f ++ test_recs f) recs) /\
+    (forall e, t2 = Some e -> (t <= e)%Q ->
+       Permutation (f_train f ++ test_recs f ++ filter (fun r => Qle_b e (tq r)) recs) recs).
+Proof. exact temporal_cut_l. Qed.
+Print Assumptions temporal_cut.
+
+Theorem temporal_zone_free :
+  forall c recs cuts endt off1 off2,
+  Forall (zone_free c) cuts -> match endt with None => True | Some e => zone_free c e end ->
+  split_global_time c off1 recs cuts endt = split_global_time c off2 recs cuts endt.
+Proof. exact split_global_time_zone_free. Qed.
+Print Assumptions temporal_zone_free.
+
+Theorem filter_window_exact :
+  forall c off recs mn mx l, filter_window c off recs mn mx = Some l ->
+  (c = ColNone -> l = recs) /\
+  (c <> ColNone -> forall r, In r l <-> In r recs /\
+     match mn with None => True | Some a => (conv c off a <= tq r)%Q end /\
+     match mx with None => True | Some b => (tq r < conv c off b)%Q end).
+Proof. exact filter_window_spec. Qed.
+Print Assumptions filter_window_exact.
+
+(* ---- frames, checkers --------------------------------------------------------------------------------------------------- *)
+Theorem frames_list_records :
+  forall l : list rec,
+  Permutation (concat (map snd (group_by_user l))) l /\
+  NoDup (map fst (group_by_user l)) /\
+  (forall u g, In (u, g) (group_by_user l) -> g <> [] /\ forall r, In r g -> ru r = u /\ In r l) /\
+  (forall (test_only : bool) recs idx,
+     f_test (make_pair test_only recs idx) = group_by_user (take_mask dflt (in_idx idx) recs)) /\
+  (forall f, train_df f = f_train f /\ test_size f = length (test_recs f)).
+Proof. exact frames_list_records_l. Qed.
+Print Assumptions frames_list_records.
+
+Theorem library_checkers :
+  (forall n perm, is_perm_b n perm = true <-> Permutation perm (seq 0 n)) /\
+  (forall len n draw, choice_ok_b len n draw = true <-> valid_idx len draw /\ Z.of_nat (length draw) = n) /\
+  (forall draw a n, ((0 <= n <= a)%Z -> valid_idx (Z.to_nat a) draw /\ Z.of_nat (length draw) = n) -> choice_ok_at (np_choice draw) a n) /\
+  (forall col o, argsort_ok_b col o = true <-> argsort_ok (fun _ => o) col).
+Proof. exact library_checkers_l. Qed.
+Print Assumptions library_checkers.
+
+(* non-vacuity: two users, user 1 with three rows (a tie in time), user 2 with one row; 2-fold user
+   cross-folding with LastN(1): the hypotheses of user_pairs / crossfold_users_once hold and the result
+   is the expected pair of folds *)
+Example c05_nonvacuous :
+  let recs := [mkRec 1 10 4 5; mkRec 1 11 8 7; mkRec 1 12 6 7; mkRec 2 10 12 3] in
+  let users := [1; 2]%Z in
+  let perm := [1; 0]%nat in
+  let hds : list (list hdraw) := [[([], [0]%nat)]; [([], [0; 1; 2]%nat)]] in
+  let rm : Z -> unit -> option Z := fun _ _ => None in
+  NoDup (map pair_of recs) /\ NoDup users /\ Permutation perm (seq 0 (length users)) /\
+  sections_draws_ok rm recs users (HLastN 1 FTime) (array_split perm 2) hds /\
+  crossfold_users rm recs users 2 (HLastN 1 FTime) false perm hds =
+    Folds [mkFold [mkRec 1 10 4 5; mkRec 1 11 8 7; mkRec 1 12 6 7] [(2%Z, [mkRec 2 10 12 3])];
+           mkFold [mkRec 1 10 4 5; mkRec 1 11 8 7; mkRec 2 10 12 3] [(1%Z, [mkRec 1 12 6 7])]].
+Proof.
+  cbv zeta. split; [|split; [|split; [|split]]].
+  - apply NoDup_map_inv with (f := fun p => (fst p * 100 + snd p)%Z). vm_compute.
+    repeat (constructor; [cbn; intuition discriminate|]). constructor.
+  - repeat (constructor; [cbn; intuition discriminate|]). constructor.
+  - apply is_perm_b_iff. vm_compute. reflexivity.
+  - intros j Hj. assert (j = 0 \/ j = 1)%nat as [E|E] by (vm_compute in Hj; lia); subst j;
+      intros i Hi; assert (i = 0)%nat by (vm_compute in Hi; lia); subst i;
+      intros c Ec; vm_compute in Ec; inversion Ec; subst c; apply argsort_ok_b_iff; vm_compute; reflexivity.
+  - vm_compute. reflexivity.
+Qed.
